@@ -8,6 +8,9 @@ Proof of the n-station theorems: `FlexModel/Net/Mesh{Lemmas,Inv,Step,Run}.lean` 
 import FlexModel.Net.Lemmas
 import FlexModel.Net.MeshOrder
 import FlexModel.Net.MeshRing
+import FlexModel.Net.LagLemmas
+import FlexModel.Net.SnAlloc
+import Generated.NetFacts
 
 namespace Props.C01
 open FlexModel.Net
@@ -602,5 +605,132 @@ the stub is prescribed a delivery that never happens.  `ReqOK` excludes exactly 
 theorem scf_blocked_witness :
     (exchange exW exA exB { exReq (.gbc 7) [1] with scfBlocked := true }).2.1.delivered = [] ∧
     expected exW exA exB { exReq (.gbc 7) [1] with scfBlocked := true } ≠ [] := by decide
+
+
+/-! ## Round 4: receptions between the requests of one lookup, concurrent source operations, regenerated guards
+
+The correspondence programmes now interleave requests with PARTIAL deliveries (some receivers lag behind, the medium
+stays FIFO per receiver) and run two requesting threads on one station.  The clauses they exercise, at full strength: -/
+
+/-- **Regenerated fact** (`harness/gen_net.py`, `Generated/NetFacts.lean`): the guard of `Router.gn_data_request_guc`
+that hands a GeoUnicast request to the location service (start a lookup / queue behind the running one) instead of
+transmitting it, as a Boolean function of the destination's location table entry - present?, lookup pending?,
+neighbour? - is "no entry, or lookup pending", whatever the neighbour flag says. -/
+theorem guc_guard_extracted : ∀ present pending neighbour : Bool,
+    Generated.NetFacts.gucQueueGuard present pending neighbour = (!present || pending) := by decide
+
+theorem lookup_setPending (p : List (Addr × List Req)) (a : Addr) (q : List Req) :
+    lookupPending (setPending p a q) a = some q := by
+  unfold setPending
+  split
+  · rename_i h
+    induction p with
+    | nil => simp at h
+    | cons e p ih =>
+      by_cases he : e.1 = a
+      · simp [lookupPending, List.find?_cons, he]
+      · have h' : p.any (fun e => decide (e.1 = a)) = true := by simpa [he] using h
+        have := ih h'
+        simp only [lookupPending, List.map_cons, List.find?_cons, he, if_false, decide_false] at this ⊢
+        exact this
+  · rename_i h
+    have hn : p.find? (fun e => decide (e.1 = a)) = none := by
+      rw [List.find?_eq_none]; intro e he; simpa using fun e' => h (List.any_eq_true.mpr ⟨e, he, by simpa using e'⟩)
+    simp [lookupPending, List.find?_append, hn]
+
+/-- **The model's unicast source operation follows the extracted guard**: after a unicast request for `de` a lookup
+for `de` is pending (started or continued, the request buffered) exactly when the guard read from the source says
+"location service", where `present` = the model knows the destination or has a lookup for it, `pending` = it has a
+lookup for it - for every value of the neighbour flag, which the model does not even record.  A guard that consults
+anything else (e.g. "pending and not a neighbour") re-opens this obligation. -/
+theorem guc_request_follows_code_guard (s : Station) (r : Req) (de : Addr) (neighbour : Bool)
+    (ht : r.transport = .guc de) :
+    (lookupPending (request s r).1.pending de).isSome =
+      Generated.NetFacts.gucQueueGuard ((lookupPending s.pending de).isSome || s.known.contains de)
+        (lookupPending s.pending de).isSome neighbour := by
+  rw [guc_guard_extracted]
+  cases hl : lookupPending s.pending de with
+  | some q => simp [request, ht, hl, lookup_setPending]
+  | none =>
+    by_cases hk : de ∈ s.known
+    · simp [request, ht, hl, hk]
+    · simp [request, ht, hl, hk, lookup_setPending]
+
+/-- a pending lookup survives every reception but the reply it waits for (SHB / beacon of the sought station
+included) -/
+theorem lookup_pending_until_reply (w : World) (s : Station) (p : Pkt) (de : Addr)
+    (h : ¬ (p.kind = .lsRep s.addr ∧ p.so = de)) :
+    lookupPending (receive w s p).1.pending de = lookupPending s.pending de := lookup_survives_reception w s p de h
+
+/-- **Unicast while the lookup is pending and the destination has been heard meanwhile.**  The destination's SHB /
+beacon arrives before the location-service reply: the destination is now known (a neighbour with a valid position
+vector), the lookup is still pending, and the next unicast request for it is QUEUED behind the buffered ones -
+nothing is transmitted, no sequence number is consumed - so that it cannot overtake them. -/
+theorem destination_heard_meanwhile_still_queues (w : World) (s : Station) (p : Pkt) (r : Req) (de : Addr)
+    (q : List Req) (hso : p.so = de) (hne : de ≠ s.addr) (hk : p.kind = .shb)
+    (hp : lookupPending s.pending de = some q) (ht : r.transport = .guc de) :
+    (receive w s p).1.known.contains de = true ∧
+    request (receive w s p).1 r =
+      ({ (receive w s p).1 with pending := setPending (receive w s p).1.pending de (q ++ [r]) }, []) :=
+  heard_destination_still_queues w s p r de q hso hne hk hp ht
+
+/-- **Request order per destination for every programme with lagging receivers.**  A lag programme is any sequence
+of requests (any station) and lag pumps (`LagOp.pump lag`: everything in the air is delivered, oldest first, except
+to the stations in `lag`, which keep transmitting and are heard) - the interleavings the correspondence check runs on
+the real stacks.  Every such programme is a FIFO-per-receiver run (`lagEvs_fifo`), hence, when nothing is left in the
+air, every station has been handed the payloads of every other station per destination in request order - also the
+unicasts issued while the lookup was pending and the destination had been heard meanwhile. -/
+theorem lag_programme_order (w : World) (sts : List Station) (hq : QuietN sts) (fuel : Nat) (ops : List LagOp)
+    (hev : ∀ ev ∈ lagEvs w fuel (Mesh.ofList sts) ops, EvOK (Mesh.ofList sts) ev)
+    (hair : ((Mesh.ofList sts).run w (lagEvs w fuel (Mesh.ofList sts) ops)).air = []) :
+    ∀ a ∈ sts, ∀ b ∈ sts, a.addr ≠ b.addr → ∀ t : Transport,
+      (((Mesh.ofList sts).run w (lagEvs w fuel (Mesh.ofList sts) ops)).st b.addr).delivered.filter
+          (fun d => d.so == a.addr && d.kind == kindOf t) =
+        b.delivered.filter (fun d => d.so == a.addr && d.kind == kindOf t) ++
+        ((reqsOf (lagEvs w fuel (Mesh.ofList sts) ops) a.addr).filter (fun r => r.transport == t)).flatMap
+          (expected w a b) :=
+  request_order_per_destination w sts hq _ hev (lagEvs_fifo w fuel _ ops) hair
+
+/-- non-vacuity (the history of seeded change C01-m4): station 1 sends a unicast to station 3, which it has never
+heard; station 3 lags (it has not heard the LS request) and sends an SHB of its own, which stations 1 and 2 hear;
+station 1 sends a second unicast to station 3; then station 3 catches up. -/
+def exLagOps : List LagOp :=
+  [.rq 1 (exR (.guc 3) [1]), .pump [3], .rq 3 (exR .shb [9]), .pump [3], .rq 1 (exR (.guc 3) [2]), .pump []]
+
+/-- at the second request station 1 knows station 3 AND its lookup for station 3 is still pending -/
+example :
+    let m := (Mesh.ofList [ex1, ex2, ex3]).run exW3 (lagEvs exW3 60 (Mesh.ofList [ex1, ex2, ex3]) (exLagOps.take 4))
+    (m.st 1).known.contains 3 = true ∧ (lookupPending (m.st 1).pending 3).isSome = true ∧
+      (m.air.map (·.1)).all (· == 3) = true ∧ m.air ≠ [] := by decide
+example : ((Mesh.ofList [ex1, ex2, ex3]).run exW3 (lagEvs exW3 60 (Mesh.ofList [ex1, ex2, ex3]) exLagOps)).air = [] := by
+  decide
+example : (((((Mesh.ofList [ex1, ex2, ex3]).run exW3 (lagEvs exW3 60 (Mesh.ofList [ex1, ex2, ex3]) exLagOps)).st 3).delivered.filter
+    (fun d => d.so == 1 && d.kind == kindOf (.guc 3))).map (·.payload)) = [[1], [2]] := by decide
+
+/-- **Regenerated fact**: `Router.get_sequence_number` touches the counter only inside
+`with self.sequence_number_lock` and returns from inside that section - the allocation is one atomic step, as in
+the model's `request` (`sn := s.sn + 1`). -/
+theorem sn_allocation_is_one_section :
+    Generated.NetFacts.snAccessesOutsideLock = 0 ∧ Generated.NetFacts.snReturnsUnderLock = true := by decide
+
+/-- **Concurrent source operations never share a sequence number.**  Any number of threads inside
+`get_sequence_number` (the shape read from the source: `snReturnsUnderLock`), ANY schedule: two threads that have
+returned hold different numbers - so two PDUs requested once each are never mistaken for duplicates of each other by
+a receiver's duplicate packet detection, and `async_exactly_once_n` (atomic `req` events) applies to requests issued
+by concurrent threads. -/
+theorem concurrent_requests_distinct_sn (c : Nat) (sched : List Nat) (t u : Nat) (htu : t ≠ u)
+    (ht : (SnAlloc.run Generated.NetFacts.snReturnsUnderLock c sched).pc t = .done)
+    (hu : (SnAlloc.run Generated.NetFacts.snReturnsUnderLock c sched).pc u = .done) :
+    (SnAlloc.run Generated.NetFacts.snReturnsUnderLock c sched).ret t ≠
+      (SnAlloc.run Generated.NetFacts.snReturnsUnderLock c sched).ret u := by
+  have h : Generated.NetFacts.snReturnsUnderLock = true := by decide
+  rw [h] at ht hu ⊢
+  exact (SnAlloc.distinct c sched t u htu ht hu).1
+
+/-- the hypothesis is needed: with the result read after the lock has been released two threads are handed the same
+number (the receiver then drops the second PDU as a duplicate: seeded change C01-m5) -/
+theorem sn_read_outside_lock_witness :
+    (SnAlloc.run false 7 [0, 0, 1, 1, 1, 0]).pc 0 = .done ∧ (SnAlloc.run false 7 [0, 0, 1, 1, 1, 0]).pc 1 = .done ∧
+    (SnAlloc.run false 7 [0, 0, 1, 1, 1, 0]).ret 0 = (SnAlloc.run false 7 [0, 0, 1, 1, 1, 0]).ret 1 := by decide
 
 end Props.C01
